@@ -547,6 +547,31 @@ func (e *Engine) discharge(obls []*Obligation) {
 			}
 		}
 	})
+	// second chance for obligations that only ran out of time (a loaded machine must not turn a
+	// provable obligation into an alarm): a few at a time, four times the limit
+	var late []*Obligation
+	for _, o := range obls {
+		if o.Expect != "unsat" || o.Res.Status == "unsat" || o.Res.Status == "sat" {
+			continue
+		}
+		timedOut := false
+		for _, r := range o.All {
+			if r.Status == "timeout" {
+				timedOut = true
+			}
+		}
+		if timedOut && len(late) < 16 {
+			late = append(late, o)
+		}
+	}
+	parallelDo(len(late), 3, func(i int) {
+		o := late[i]
+		r, all := raceSolvers(e.tmp, fmt.Sprintf("late%02d_%s_%s", i, shortKey(o.Func), o.Name), o.SMT, 4*e.timeout, false, nil)
+		o.All = append(o.All, all...)
+		if r.Status == "sat" || r.Status == "unsat" {
+			o.Res = r
+		}
+	})
 }
 
 func (o *Obligation) ok() bool {
